@@ -168,7 +168,8 @@ func (f *artAllocator) allocLeaf(key []byte) (arena.MemdbArenaAddr, *artLeaf) {
 	addr, data := f.nodeAllocator.Alloc(size, true)
 	lf := (*artLeaf)(unsafe.Pointer(&data[0]))
 	lf.keyLen = uint16(len(key))
-	lf.flags = 0
+	// A new leaf is not counted until its first set, the same as a leaf whose key was removed by a revert.
+	lf.flags = deleteFlag
 	lf.vLogAddr = arena.NullAddr
 	copy(data[leafSize:], key)
 	return addr, lf
